@@ -1595,4 +1595,344 @@ theorem blocksIndex_spec (chunks : List (List Int)) (idx : List Ix) (cs maps : L
         · rw [← h.1, h.2]
         · rw [hm]; exact bm.2
 
+/-! ### the wiring of `_layer` on one axis, the output shape, `ExpandDims` -/
+
+/-- On a sliced axis, output block `o[k]` of `_layer` (the `k`-th entry of the `out_names`
+factor, paired with the `k`-th sorted input block) is the `o[k]`-th entry of the plan in
+output-block order — the order `axisPieces` uses. -/
+theorem layerAxis_ordered (lengths : List Int) (s : PySlice) (o : List Nat)
+    (h : outRange1 lengths (.slc s) = some o) :
+    o.length = (sortByKey (slice1d (isum lengths) lengths s)).length ∧
+    ∀ k, k < (sortByKey (slice1d (isum lengths) lengths s)).length →
+      (orderedPlan s.stp (slice1d (isum lengths) lengths s))[o.getD k 0]? =
+        (sortByKey (slice1d (isum lengths) lengths s))[k]? := by
+  have hn : (blockSlices1 lengths (.slc s)).length = (sortByKey (slice1d (isum lengths) lengths s)).length := by
+    simp [blockSlices1]
+  unfold outRange1 at h
+  simp only [hn] at h
+  unfold orderedPlan
+  by_cases hneg : s.stp < 0
+  · have hr : o = (List.range (sortByKey (slice1d (isum lengths) lengths s)).length).reverse := by
+      unfold stp at hneg
+      cases hs : s.step with
+      | none => rw [hs] at hneg; simp at hneg
+      | some c =>
+        rw [hs] at hneg h
+        simp only [Option.getD_some] at hneg
+        have : c ≠ 0 ∧ c < 0 := by omega
+        simp only [if_pos this] at h
+        exact (Option.some.inj h).symm
+    subst hr
+    simp only [hneg, ↓reduceIte, List.length_reverse, List.length_range, true_and]
+    intro k hk
+    have e : (List.range (sortByKey (slice1d (isum lengths) lengths s)).length).reverse.getD k 0
+        = (sortByKey (slice1d (isum lengths) lengths s)).length - 1 - k := by
+      rw [List.getD_eq_getElem?_getD, List.getElem?_reverse (by simpa using hk)]
+      simp only [List.length_range]
+      rw [List.getElem?_range (by omega)]
+      simp
+    rw [e, List.getElem?_reverse (by omega)]
+    congr 1
+    omega
+  · have hr : o = List.range (sortByKey (slice1d (isum lengths) lengths s)).length := by
+      unfold stp at hneg
+      cases hs : s.step with
+      | none => rw [hs] at h; exact (Option.some.inj h).symm
+      | some c =>
+        rw [hs] at hneg h
+        simp only [Option.getD_some] at hneg
+        have : ¬ (c ≠ 0 ∧ c < 0) := by omega
+        simp only [if_neg this] at h
+        exact (Option.some.inj h).symm
+    subst hr
+    simp only [hneg, ↓reduceIte, List.length_range, true_and]
+    intro k hk
+    have e : (List.range (sortByKey (slice1d (isum lengths) lengths s)).length).getD k 0 = k := by
+      rw [List.getD_eq_getElem?_getD, List.getElem?_range hk]; rfl
+    rw [e]
+
+/-- the output shape NumPy gives is the shape of the advertised chunks, `None` axes included. -/
+theorem outShape : ∀ (idx' : List Ix) (chunks : List (List Int)) (pos : List (List Int)) (out : List Nat),
+    (∀ l ∈ chunks, ∀ c ∈ l, 0 ≤ c) → NormalFor idx' (chunks.map isum) → idx'.countP Ix.isLst = 0 →
+    npAxes idx' (chunks.map isum) = .ok (pos, out) →
+      out = (outChunks chunks idx').map (fun c => (isum c).toNat)
+  | [], chunks, pos, out, _, _, _, h => by
+    simp only [npAxes, Except.ok.injEq, Prod.mk.injEq] at h
+    rw [← h.2]; cases chunks <;> simp [outChunks]
+  | x :: rest, chunks, pos, out, hc, hn, hl, h => by
+    cases x with
+    | none_ =>
+      simp only [NormalFor] at hn
+      simp only [npAxes] at h
+      cases hr : npAxes rest (chunks.map isum) with
+      | error e => rw [hr] at h; cases h
+      | ok r0 =>
+        rw [hr] at h
+        simp only [Except.ok.injEq, Prod.mk.injEq] at h
+        have ih := outShape rest chunks r0.1 r0.2 hc hn (by simpa [List.countP_cons, Ix.isLst] using hl) hr
+        rw [← h.2, ih]
+        cases chunks <;> simp [outChunks, isum]
+    | ellipsis => simp [NormalFor] at hn
+    | lst v => simp [List.countP_cons, Ix.isLst] at hl
+    | int i =>
+      cases chunks with
+      | nil => simp [NormalFor] at hn
+      | cons lengths cs =>
+        simp only [List.map_cons, NormalFor] at hn
+        simp only [List.map_cons, npAxes] at h
+        have c : -isum lengths ≤ i ∧ i < isum lengths := by omega
+        rw [if_pos c] at h
+        cases hr : npAxes rest (cs.map isum) with
+        | error e => rw [hr] at h; cases h
+        | ok r0 =>
+          rw [hr] at h
+          simp only [Except.ok.injEq, Prod.mk.injEq] at h
+          have ih := outShape rest cs r0.1 r0.2 (fun l hl' => hc l (List.mem_cons_of_mem _ hl')) hn.2
+            (by simpa [List.countP_cons, Ix.isLst] using hl) hr
+          rw [← h.2, ih]; simp [outChunks]
+    | slc s =>
+      cases chunks with
+      | nil => simp [NormalFor] at hn
+      | cons lengths cs =>
+        simp only [List.map_cons, NormalFor] at hn
+        rcases hn.1 with ⟨s0, hs0, rfl⟩
+        simp only [List.map_cons, npAxes] at h
+        have c : (normalizeSlice s0 (isum lengths)).stp ≠ 0 := by rw [stp_normalizeSlice s0 _ hs0]; exact hs0
+        rw [if_neg c] at h
+        cases hr : npAxes rest (cs.map isum) with
+        | error e => rw [hr] at h; cases h
+        | ok r0 =>
+          rw [hr] at h
+          simp only [Except.ok.injEq, Prod.mk.injEq] at h
+          have hcl : ∀ c ∈ lengths, 0 ≤ c := hc lengths (by simp)
+          have ih := outShape rest cs r0.1 r0.2 (fun l hl' => hc l (List.mem_cons_of_mem _ hl')) hn.2
+            (by simpa [List.countP_cons, Ix.isLst] using hl) hr
+          have a := (axisChunks_slc lengths s0 hcl hs0).1
+          have hd0 : 0 ≤ isum lengths := Slice1dPos.isum_nonneg lengths hcl
+          rw [← h.2, ih]
+          simp only [outChunks, List.map_cons, a, SliceAlgebra.sel_normalizeSlice s0 _ hd0 hs0, Int.toNat_natCast]
+
+theorem insertAt_length_append {α} (pre X : List α) (a : α) :
+    insertAt (pre ++ X) pre.length a = (pre ++ [a]) ++ X := by
+  unfold insertAt
+  simp
+
+/-- `ExpandDims(SliceSlicesIntegers(x, index without None), where_none)` has the chunks
+`outChunks` writes down directly: generalised over the output axes `pre` already produced. -/
+theorem expandDims_whereNone : ∀ (index : List Ix) (chunks pre : List (List Int)) (pos ints : Nat),
+    ints ≤ pos → pre.length = pos - ints →
+    index.countP Ix.isLst = 0 → index.countP Ix.isEllipsis = 0 → index.countP Ix.consumes ≤ chunks.length →
+    (whereNoneFrom pos ints index).foldl (fun c ax => insertAt c ax [1])
+        (pre ++ ssiChunks chunks (index.filter (fun i => !i.isNone)))
+      = pre ++ outChunks chunks index
+  | [], chunks, pre, pos, ints, _, _, _, _, _ => by
+    cases chunks <;> simp [whereNoneFrom, ssiChunks, outChunks]
+  | x :: rest, chunks, pre, pos, ints, hi, hp, hl, he, hk => by
+    cases x with
+    | none_ =>
+      rw [filter_none]
+      simp only [whereNoneFrom, List.foldl_cons]
+      rw [← hp, insertAt_length_append]
+      have ih := expandDims_whereNone rest chunks (pre ++ [[1]]) (pos + 1) ints (by omega)
+        (by simp; omega) (by simpa [List.countP_cons, Ix.isLst] using hl)
+        (by simpa [List.countP_cons, Ix.isEllipsis] using he) (by simpa [List.countP_cons, Ix.consumes] using hk)
+      rw [ih]
+      cases chunks <;> simp [outChunks]
+    | ellipsis => simp [List.countP_cons, Ix.isEllipsis] at he
+    | lst v => simp [List.countP_cons, Ix.isLst] at hl
+    | int i =>
+      cases chunks with
+      | nil => simp [List.countP_cons, Ix.consumes] at hk
+      | cons lengths cs =>
+        rw [filter_int]
+        simp only [whereNoneFrom, ssiChunks, outChunks]
+        exact expandDims_whereNone rest cs pre (pos + 1) (ints + 1) (by omega) (by omega)
+          (by simpa [List.countP_cons, Ix.isLst] using hl) (by simpa [List.countP_cons, Ix.isEllipsis] using he)
+          (by simpa [List.countP_cons, Ix.consumes] using hk)
+    | slc s =>
+      cases chunks with
+      | nil => simp [List.countP_cons, Ix.consumes] at hk
+      | cons lengths cs =>
+        rw [filter_slc]
+        simp only [whereNoneFrom, ssiChunks, outChunks]
+        have ih := expandDims_whereNone rest cs (pre ++ [newBlockdim (isum lengths) lengths s]) (pos + 1) ints
+          (by omega) (by simp; omega) (by simpa [List.countP_cons, Ix.isLst] using hl)
+          (by simpa [List.countP_cons, Ix.isEllipsis] using he) (by simpa [List.countP_cons, Ix.consumes] using hk)
+        simpa using ih
+
+/-- `x[idx].chunks` (the `normalize_index` → `slice_with_newaxes` → `SliceSlicesIntegers` →
+`ExpandDims` pipeline) is, item by item, `(1,)` for `None`, nothing for an integer and
+`new_blockdim` for a slice; its shape is NumPy's output shape. -/
+theorem getitemChunks_spec (chunks : List (List Int)) (idx : List Ix) (r : List (List Int))
+    (hc : ∀ l ∈ chunks, ∀ c ∈ l, 0 ≤ c) (hb : idx.countP Ix.isLst = 0)
+    (h : getitemChunks chunks idx = .ok r) :
+    ∃ idx' pos out, normalizeIndex idx (chunks.map isum) = .ok idx' ∧ r = outChunks chunks idx' ∧
+      npIndex idx (chunks.map isum) = .ok (pos, out) ∧ out = r.map (fun c => (isum c).toNat) := by
+  unfold getitemChunks at h
+  cases hn : normalizeIndex idx (chunks.map isum) with
+  | error e => rw [hn] at h; cases h
+  | ok idx' =>
+    rw [hn] at h
+    simp only [Except.ok.injEq] at h
+    have hd := shape_nonneg chunks hc
+    have s := normalizeIndex_sound idx idx' _ hd hn
+    rcases npAxes_ok_of_normal idx' _ s.2.1 with ⟨q, hq⟩
+    have hnp : npIndex idx (chunks.map isum) = .ok q := by
+      rw [← s.1]; unfold npIndex
+      rw [npExpand_normal _ idx' s.2.2.2.1 s.2.2.1]; exact hq
+    have hl : idx'.countP Ix.isLst = 0 := by rw [s.2.2.2.2.2, hb]
+    have e := expandDims_whereNone idx' chunks [] 0 0 (Nat.le_refl _) rfl hl s.2.2.2.1
+      (by rw [s.2.2.1]; simp)
+    simp only [List.nil_append] at e
+    have hr : r = outChunks chunks idx' := by rw [← h]; exact e
+    refine ⟨idx', q.1, q.2, rfl, hr, hnp, ?_⟩
+    rw [hr]
+    exact outShape idx' chunks q.1 q.2 hc s.2.1 hl hq
+
+/-! ### `_layer` = the product of the per-axis wirings (zip of products = product of zips) -/
+
+theorem flatMap_congr' {α β} : ∀ (l : List α) (f g : α → List β), (∀ a ∈ l, f a = g a) →
+    l.flatMap f = l.flatMap g
+  | [], _, _, _ => rfl
+  | a :: l, f, g, h => by
+    simp only [List.flatMap_cons]
+    rw [h a (by simp), flatMap_congr' l f g (fun b hb => h b (List.mem_cons_of_mem _ hb))]
+
+theorem zip_flatMap {α β γ δ} : ∀ (A : List α) (B : List β) (f : α → List γ) (g : β → List δ),
+    A.length = B.length → (∀ a ∈ A, ∀ b ∈ B, (f a).length = (g b).length) →
+    (A.flatMap f).zip (B.flatMap g) = (A.zip B).flatMap (fun p => (f p.1).zip (g p.2))
+  | [], [], _, _, _, _ => by simp
+  | [], _ :: _, _, _, h, _ => by simp at h
+  | _ :: _, [], _, _, h, _ => by simp at h
+  | a :: A, b :: B, f, g, h, hin => by
+    simp only [List.flatMap_cons, List.zip_cons_cons]
+    rw [List.zip_append (hin a (by simp) b (by simp))]
+    rw [zip_flatMap A B f g (by simpa using h)
+      (fun a' ha' b' hb' => hin a' (List.mem_cons_of_mem _ ha') b' (List.mem_cons_of_mem _ hb'))]
+
+/-- zipping two products whose factors have pairwise equal lengths is the product of the zips. -/
+theorem zip_cart {α β} : ∀ (As : List (List α)) (Bs : List (List β)),
+    As.map List.length = Bs.map List.length →
+    (cart As).zip (cart Bs) =
+      (cart (List.zipWith List.zip As Bs)).map (fun t => (t.map Prod.fst, t.map Prod.snd))
+  | [], [], _ => by simp [cart]
+  | [], _ :: _, h => by simp at h
+  | _ :: _, [], h => by simp at h
+  | A :: As, B :: Bs, h => by
+    simp only [List.map_cons, List.cons.injEq] at h
+    have ih := zip_cart As Bs h.2
+    have hl : (cart As).length = (cart Bs).length := by rw [length_cart, length_cart, h.2]
+    rw [cart_cons, cart_cons, List.zipWith_cons_cons, cart_cons]
+    rw [zip_flatMap A B _ _ h.1 (by intro a _ b _; simp [hl])]
+    rw [List.map_flatMap]
+    apply flatMap_congr'
+    intro p _
+    rw [List.zip_map, ih, List.map_map, List.map_map]
+    apply List.map_congr_left
+    intro t _
+    simp [Prod.map]
+
+theorem zip_map_fst_snd {α β} : ∀ (l : List (α × β)), (l.map Prod.fst).zip (l.map Prod.snd) = l
+  | [] => rfl
+  | p :: l => by simp [zip_map_fst_snd l]
+
+/-- the product of first components zipped with the product of second components. -/
+theorem zip_cart_fst_snd {α β} (ls : List (List (α × β))) :
+    (cart (ls.map (fun s => s.map Prod.fst))).zip (cart (ls.map (fun s => s.map Prod.snd))) =
+      (cart ls).map (fun t => (t.map Prod.fst, t.map Prod.snd)) := by
+  rw [zip_cart _ _ (by simp [List.map_map, Function.comp_def])]
+  congr 2
+  induction ls with
+  | nil => rfl
+  | cons s ls ih => simp [List.zipWith_cons_cons, zip_map_fst_snd, ih]
+
+
+theorem zip3_eq_zip {α β γ} : ∀ (a : List α) (b : List β) (c : List γ), zip3 a b c = a.zip (b.zip c)
+  | [], _, _ => by simp [zip3]
+  | _ :: _, [], _ => by simp [zip3]
+  | _ :: _, _ :: _, [] => by simp [zip3]
+  | x :: a, y :: b, z :: c => by simp [zip3, zip3_eq_zip a b c]
+
+/-- the `out_names` factors: an axis without output index (integer) contributes `[none]`. -/
+def optRange : Option (List Nat) → List (Option Nat)
+  | some o => o.map some
+  | none => [none]
+
+theorem cart_filterMap : ∀ (L : List (Option (List Nat))),
+    cart (L.filterMap id) = (cart (L.map optRange)).map (fun u => u.filterMap id)
+  | [] => by simp [cart]
+  | none :: L => by
+    have e : (none :: L).filterMap id = L.filterMap id := rfl
+    rw [e, cart_filterMap L, List.map_cons, cart_cons]
+    simp [optRange, List.map_map, Function.comp_def]
+  | some o :: L => by
+    have e : (some o :: L).filterMap id = o :: L.filterMap id := rfl
+    rw [e, cart_cons, cart_filterMap L, List.map_cons, cart_cons]
+    simp only [optRange, List.flatMap_map, List.map_flatMap, List.map_map, Function.comp_def]
+    rfl
+
+theorem outRange1_slc (lengths : List Int) (s : PySlice) :
+    ∃ o, outRange1 lengths (.slc s) = some o ∧ o.length = (blockSlices1 lengths (.slc s)).length := by
+  rcases s with ⟨a, b, c⟩
+  cases c with
+  | none => exact ⟨_, rfl, by simp⟩
+  | some c =>
+    by_cases hc : c ≠ 0 ∧ c < 0
+    · refine ⟨(List.range (blockSlices1 lengths (.slc ⟨a, b, some c⟩)).length).reverse, ?_, by simp⟩
+      unfold outRange1
+      simp only
+      rw [if_pos hc]
+    · refine ⟨List.range (blockSlices1 lengths (.slc ⟨a, b, some c⟩)).length, ?_, by simp⟩
+      unfold outRange1
+      simp only
+      rw [if_neg hc]
+
+theorem isIntOrSlc_cases (i : Ix) (h : i.isInt = true ∨ (∃ s, i = .slc s)) :
+    (∃ k, i = .int k) ∨ (∃ s, i = .slc s) := by
+  rcases h with h | h
+  · cases i <;> simp [Ix.isInt] at h
+    exact Or.inl ⟨_, rfl⟩
+  · exact Or.inr h
+
+theorem axisCells_eq (lengths : List Int) (i : Ix) (h : (∃ k, i = .int k) ∨ (∃ s, i = .slc s)) :
+    axisCells lengths i = (optRange (outRange1 lengths i)).zip (blockSlices1 lengths i) ∧
+    (optRange (outRange1 lengths i)).length = (blockSlices1 lengths i).length := by
+  rcases h with ⟨k, rfl⟩ | ⟨s, rfl⟩
+  · simp [axisCells, outRange1, optRange, blockSlices1]
+  · rcases outRange1_slc lengths s with ⟨o, ho, hl⟩
+    simp only [axisCells, ho, optRange, List.length_map, hl, and_self]
+
+/-- **`_layer` is the product of the per-axis wirings**: the triples
+`zip(out_names, in_names, all_slices)` are exactly the cells of the grid
+`cart (axisCells per axis)`, in the same order. -/
+theorem ssiLayer_eq_cells : ∀ (chunks : List (List Int)) (index : List Ix),
+    (∀ i ∈ index, (∃ k, i = .int k) ∨ (∃ s, i = .slc s)) →
+    ssiLayer chunks index = (cart (List.zipWith axisCells chunks index)).map splitCell := by
+  intro chunks index hix
+  unfold ssiLayer
+  simp only
+  rw [zip3_eq_zip, zip_cart_fst_snd, cart_filterMap]
+  -- the three per-axis lists, as lists over the axes
+  have hcells : ∀ (cs : List (List Int)) (ix : List Ix), (∀ i ∈ ix, (∃ k, i = .int k) ∨ (∃ s, i = .slc s)) →
+      List.zipWith axisCells cs ix =
+        List.zipWith List.zip ((List.zipWith outRange1 cs ix).map optRange) (List.zipWith blockSlices1 cs ix) ∧
+      ((List.zipWith outRange1 cs ix).map optRange).map List.length =
+        (List.zipWith blockSlices1 cs ix).map List.length := by
+    intro cs
+    induction cs with
+    | nil => intro ix _; simp
+    | cons c cs ih =>
+      intro ix h
+      cases ix with
+      | nil => simp
+      | cons i ix =>
+        have a := axisCells_eq c i (h i (by simp))
+        have r := ih ix (fun j hj => h j (List.mem_cons_of_mem _ hj))
+        simp only [List.zipWith_cons_cons, List.map_cons, a.1, a.2, r.1, r.2, and_self]
+  have hc := hcells chunks index hix
+  rw [List.zip_map, zip_cart _ _ hc.2, ← hc.1, List.map_map]
+  apply List.map_congr_left
+  intro t _
+  simp [splitCell, Prod.map, List.filterMap_map, Function.comp_def]
+
 end Dask.Lemmas.Indexing
